@@ -51,7 +51,7 @@ def _pipeline(ctx, hw, b, transpile):
     conn, ex = make_pipeline(ctx, "Alice", epr_sockets=[sock], **kw)
     if ctx.symbolic:
         _install(ctx, ex, False)
-    state = {"next_phys": 100, "faults": [], "electron": []}
+    state = {"next_phys": 100, "faults": [], "electron": [], "bells": None}      # bells: Bell states reported for the delivered pairs, in order (default Phi+)
 
     class EvLog(list):
         """processor event log that checks, when an event is recorded, that every virtual qubit it addresses is allocated
@@ -75,7 +75,8 @@ def _pipeline(ctx, hw, b, transpile):
                         for _ in range(d.pairs_left):
                             state["next_phys"] += 1
                             r = LinkLayerOKTypeK(type=ReturnType.OK_K, logical_qubit_id=state["next_phys"], directionality_flag=0 if creator else 1,
-                                                 purpose_id=key[1], remote_node_id=key[0], bell_state=BellState.PHI_PLUS)
+                                                 purpose_id=key[1], remote_node_id=key[0],
+                                                 bell_state=(state["bells"].pop(0) if state["bells"] else BellState.PHI_PLUS))
                             ctx.call(ex._handle_epr_response, r)
         try:
             drive(ctx, ex, sub, on_wait)
@@ -255,6 +256,19 @@ def build():
         ctx.check("no-allocation-fault-on-the-controller", out[0] == "ret" and not state["faults"])
         ctx.check("active-handles == allocated-virtual-qubits after the flush", sorted(_sdk_ids(conn)) == sorted(_controller_ids(ex)))
     R.add("lemma[epr sequential form: every pair measured in the post routine]", kind="exhaustive", samples=8)(epr_sequential)
+
+    def epr_all_at_once(ctx):
+        """a keep request for two pairs whose Bell states need corrections: every correction gate addresses an allocated virtual qubit"""
+        hw = ctx.choice("hw", ["generic", "nv"])
+        role = ctx.choice("role", ["create", "recv"])
+        tr = ctx.choice("transpiler", [False, True]) if hw == "nv" else False
+        conn, ex, sock, state = _pipeline(ctx, hw, 3, tr)
+        state["bells"] = [ctx.choice(f"bell{k}", list(BellState)) for k in range(2)]
+        from specs import sdk_progs
+        out = ctx.attempt(sdk_progs.epr_keep_two, conn, sock, role)
+        ctx.check("no-allocation-fault-on-the-controller", out[0] == "ret" and not state["faults"])
+        ctx.check("active-handles == allocated-virtual-qubits after the flush", sorted(_sdk_ids(conn)) == sorted(_controller_ids(ex)))
+    R.add("lemma[epr keep, two pairs at once, any reported Bell states]", kind="exhaustive", samples=24, max_paths=2000)(epr_all_at_once)
 
     def canary(ctx):
         conn, ex, sock, state = _pipeline(ctx, "generic", 2, False)
